@@ -10,16 +10,15 @@ META = {
                    "element; a position found once on the first element is not enough; (SB-tombstone) on a removed "
                    "member (Undefined value) the member walk continues, it does not abandon the grouping -- the same "
                    "skip-and-continue treatment every other member walk of the library gives removed entries; "
-                   "(PR-copy) members are copied into the sub-object (never moved out of the source) and the source is "
-                   "reached only through read-only operations; the grouped value is reset and made an object first; "
+                   "(PR-copy) GroupBy and its callees write only the result and locals -- the effect summary (E-FX, instantiation "
+                   "view) has no store into the receiver or anything reached through it, so members are copied, never "
+                   "moved or edited; the grouped value is reset and made an object first; "
                    "(PR-groupattr) renderLoop passes the group attribute with the same base the scanner used when it "
                    "recorded GroupOffset, and sorts/groups a private copy.",
     "not_decided": "that the produced partition equals the specification for every input (group order, contents)",
     "assumptions": [],
 }
 
-READ_ONLY = {"isObject", "isUndefined", "isArray", "SetCharAndLength", "CopyValueTo", "First", "End", "GetKeyIndex", "IsEqual",
-             "Length", "Size", "Type", "GetKey", "IsObject", "IsUndefined", "GroupBy"}
 
 
 def run(ctx):
@@ -40,15 +39,49 @@ def run(ctx):
 
     # ---------------- FLOW-key
     r = Rule("FLOW-key", "the grouping key is consulted for every member of every element", floor=1)
-    uses_in_inner = [x for x in f.walk(f.nodes[inner]["body"]) if f.nodes[x]["k"] == "DeclRefExpr" and f.nodes[x]["n"] == kname]
-    uses_in_outer = [x for x in f.walk(f.nodes[outer]["body"]) if f.nodes[x]["k"] == "DeclRefExpr" and f.nodes[x]["n"] == kname]
-    how = "not at all inside the element loop"
-    if uses_in_inner:
-        how = "per member: " + f.text(astq.enclosing(f, uses_in_inner[0], ("CallExpr", "CXXMemberCallExpr")) or uses_in_inner[0])
-    elif uses_in_outer:
-        how = "per element: " + f.text(astq.enclosing(f, uses_in_outer[0], ("CallExpr", "CXXMemberCallExpr")) or uses_in_outer[0])
-    r.ob(f.q, "use of `%s` inside the element loop" % kname, bool(uses_in_outer),
-         "key consulted %s%s" % (how, "" if uses_in_outer else
+    # values that carry the *name* of the group: the key parameters and locals computed from them alone
+    tainted = {f.params[1]["d"], f.params[2]["d"]}
+    names = {f.params[1]["d"]: kname, f.params[2]["d"]: lname}
+    changed = True
+    while changed:
+        changed = False
+        for st in astq.nodes_of(f, "DeclStmt"):
+            for d in f.nodes[st]["decls"]:
+                if "d" not in d or d["d"] in tainted or d.get("init", -1) < 0:
+                    continue
+                refs = [f.nodes[x] for x in f.walk(d["init"]) if f.nodes[x]["k"] == "DeclRefExpr" and f.nodes[x].get("dk") in ("var", "param") and not f.nodes[x].get("static")]
+                if refs and all(x.get("d") in tainted for x in refs) and not any(f.nodes[x]["k"] == "CXXThisExpr" for x in f.walk(d["init"])):
+                    tainted.add(d["d"])
+                    names[d["d"]] = d["n"]
+                    changed = True
+    # variables that change from element to element: assigned or stepped inside the element loop
+    variant = set()
+    for x in f.walk(outer):
+        n = f.nodes[x]
+        tgt = None
+        if n["k"] in ("BinaryOperator", "CompoundAssignOperator") and n.get("op", "").endswith("=") and n["op"] not in ("==", "!=", "<=", ">="):
+            tgt = f.nodes[f.strip(n["ch"][0])]
+        elif n["k"] == "UnaryOperator" and n.get("op") in ("++", "--"):
+            tgt = f.nodes[f.strip(n["ch"][0])]
+        if tgt is not None and tgt["k"] == "DeclRefExpr":
+            variant.add(tgt["d"])
+        if n["k"] == "DeclStmt":
+            for d in n["decls"]:
+                if "d" in d:
+                    variant.add(d["d"])
+    variant -= tainted
+    sites = []
+    for x in f.walk(f.nodes[outer]["body"]):
+        n = f.nodes[x]
+        if n["k"] in ("CallExpr", "CXXMemberCallExpr", "CXXOperatorCallExpr") or (n["k"] == "BinaryOperator" and n["op"] in ("==", "!=")):
+            sub = [f.nodes[y] for y in f.walk(x) if f.nodes[y]["k"] == "DeclRefExpr"]
+            if any(y.get("d") in tainted for y in sub) and any(y.get("d") in variant for y in sub):
+                sites.append(x)
+    how = "nowhere inside the element loop"
+    if sites:
+        how = "per element: `%s`" % f.text(sites[0])[:80]
+    r.ob(f.q, "the group's name (%s) is compared or looked up against each element" % ", ".join(sorted(names.values())), bool(sites),
+         "key consulted %s%s" % (how, "" if sites else
          ": the member that names the group is located once (on the first element) and assumed to sit at the same position in "
          "every element, so [{y:1,m:2},{m:5,y:1}] groups the second object by m"), f.loc(outer))
     rules.append(r)
@@ -92,20 +125,36 @@ def run(ctx):
     rules.append(r)
 
     # ---------------- PR-copy
-    r = Rule("PR-copy", "the source is only read; members are copied; the result is reset to an object first", floor=3)
-    bad_calls = []
-    for c in astq.calls(f):
-        rc = f.call_receiver(c)
-        if rc is None:
-            continue
-        rt = f.text(rc)
-        if rt.startswith(("item_", "obj_item", "this", "array_", "value_")) or rt.startswith("(item_"):
-            nm = f.call_simple_name(c)
-            if nm not in READ_ONLY:
-                bad_calls.append(f.text(c))
-    r.ob(f.q, "source access", not bad_calls, "operations on the source elements/members outside the read-only set: %s" % (bad_calls or "none"), "Include/Value.hpp:%d" % f.line)
-    moves = [f.text(c) for c in astq.calls(f, "Move") if any(f.nodes[x].get("n") in ("obj_item", "item_") for x in f.walk(c))]
-    r.ob(f.q, "no move out of the source", not moves, "Memory::Move applied to source members: %s" % (moves or "none"), "Include/Value.hpp:%d" % f.line)
+    r = Rule("PR-copy", "the source is only read; members are copied; the result is reset to an object first", floor=2)
+    # physical constness of GroupBy over its receiver, from the effect summaries of the instantiation view
+    from qlib.fx import FX
+    mi = ctx.inst()
+    gi = [g for g in mi.functions if g.q == "Qentem::Value::GroupBy" and len(g.params) == 3]
+    if not gi:
+        raise AnalysisBroken("Value::GroupBy is not instantiated by the driver")
+    fx = FX(mi)
+    ids = [g.id for g in mi.functions if not g.dependent]
+    fx.solve(ids)
+    eff = fx.effects(ids)
+    for g in gi:
+        ctx.note_fn(g)
+        e = eff.get(g.id, set())
+        bad = sorted(str(x) for x in e if x == "T" or x == "U" or (isinstance(x, str) and x.startswith("G:")))
+        where = ""
+        if bad:
+            sfx = fx.fn[g.id]
+            for (nid, syms, kind) in sfx.stores:
+                if set(syms) & {"T", "U"}:
+                    where = "%s `%s` at %s" % (kind, g.text(nid)[:60], g.loc(nid))
+                    break
+            else:
+                for (nid, gid, T, P, name) in sfx.calls:
+                    ge = eff.get(gid) or ()
+                    if ("T" in ge and set(T) & {"T", "U"}) or any(isinstance(sy, tuple) and set(P.get(sy[1], ())) & {"T", "U"} for sy in ge):
+                        where = "call `%s` at %s hands the source to %s, which writes it" % (g.text(nid)[:60], g.loc(nid), name.replace("Qentem::", ""))
+                        break
+        r.ob(g.sig, "source only read", not bad, "regions GroupBy or its callees may write: %s%s" % (sorted(str(x) for x in e) or "none",
+             ("; " + where) if where else " (the receiver and everything reached through it are not among them)"), "Include/Value.hpp:%d" % g.line)
     top_calls = [f.text(c) for c in astq.calls(f) if f.call_receiver(c) is not None and f.text(f.call_receiver(c)) == "groupedValue"]
     first_loop = outer
     pre = [f.text(c) for c in astq.calls(f) if c < first_loop and f.call_receiver(c) is not None and f.text(f.call_receiver(c)) == "groupedValue"]
@@ -128,4 +177,6 @@ def run(ctx):
     ok = bool(decl) and not decl[0].get("ref") and decl[0].get("tk") != "ptr" and all(rl.text(rl.call_receiver(c)) == "grouped_set" for c in sorts)
     r.ob(rl.q, "private working copy", ok, "grouped_set is a by-value local and the only receiver of Sort()", "Include/Template.hpp:%d" % rl.line)
     rules.append(r)
+    from rules.C13 import rule_hash_confirm
+    rules.append(rule_hash_confirm(ctx, m))
     return rules
